@@ -359,6 +359,29 @@ func httpServeDir(dir, hookPath string) (int, error) {
 			}
 			return true
 		})
+		// a listener made first and handed to Serve: net.Listen(network, addr) and
+		// listenConfig.Listen(ctx, network, addr)
+		ast.Inspect(f, func(nd ast.Node) bool {
+			call, ok := nd.(*ast.CallExpr)
+			if !ok {
+				return true
+			}
+			sel, ok := call.Fun.(*ast.SelectorExpr)
+			if !ok || sel.Sel.Name != "Listen" {
+				return true
+			}
+			if id, ok := sel.X.(*ast.Ident); ok && id.Name == "net" && len(call.Args) == 2 {
+				call.Fun = &ast.SelectorExpr{X: ast.NewIdent("verifsimhook"), Sel: ast.NewIdent("NetListen")}
+				n++
+				return true
+			}
+			if len(call.Args) == 3 {
+				call.Args = append([]ast.Expr{sel.X}, call.Args...)
+				call.Fun = &ast.SelectorExpr{X: ast.NewIdent("verifsimhook"), Sel: ast.NewIdent("ListenConfigListen")}
+				n++
+			}
+			return true
+		})
 		if n == 0 {
 			continue
 		}
